@@ -232,7 +232,9 @@ SOUP = ["a", "b", "s", "=", "{", "}", ";", "\n", " ", "!", ".", ".help", ".type"
         "__OFF__", "__END__", '"', "'", '"""', "'''", "\\", "1", "int", "True", "x y", "include", "file", "$a", "\\\n", "a.b", "__r__", "(", ")",
         ",", "\t", ".multiple", ".call", ".sequential_format", "abc",
         # text that is special to Python's own string formatting (error messages quote the user's token)
-        "%", "%s", "%d", "%(a)s", "{0}", "{}", "{a}"]
+        "%", "%s", "%d", "%(a)s", "{0}", "{}", "{a}",
+        # type expressions with something after the call
+        "int()", "ints(size=2)", ", 5", ".phil_type", ".type = int(), 5"]
 
 
 def gen_soup(rng):
